@@ -3,7 +3,7 @@
 from typing import Any, Dict, List, Optional
 
 from ..exc import ValidationError
-from ..lang.ast import Document, Field, OperationDefinition
+from ..lang.ast import Document, OperationDefinition
 from ..schema import Schema
 from .collect_fields import selected_fields
 
@@ -72,16 +72,15 @@ class MaxDepthValidationRule:
             ):
                 continue
 
-            paths = (
-                p
-                for f in op.selection_set.selections
-                if isinstance(f, Field)
-                for p in selected_fields(
-                    f, fragments=fragments, variables=variables, maxdepth=None,
-                )
+            # Collect from the operation itself so that fragments and inline
+            # fragments at the top of the operation are traversed as well.
+            paths = selected_fields(
+                op, fragments=fragments, variables=variables, maxdepth=None,
             )
 
-            depth = max(x.count("/") + 1 for x in paths)
+            # Depth is the number of nesting levels below the root fields,
+            # a flat operation has a depth of 0.
+            depth = max((x.count("/") for x in paths), default=0)
 
             if depth > self.max_depth:
                 errors.append(
